@@ -110,7 +110,16 @@ pub fn vop(r: &mut Rng, vt: VT) -> VOp {
     let tag = r.below(11) as u32;
     let copy = matches!(vt, VT::U8 | VT::U32);
     loop {
-        let op = match r.below(46) {
+        let op = match r.below(52) {
+            46 | 47 => {
+                if r.chance(1, 2) {
+                    VOp::IterHold
+                } else {
+                    VOp::DrainHold(range(r))
+                }
+            }
+            48..=50 => VOp::IterNext { back: r.chance(1, 3) },
+            51 => VOp::IterRelease,
             0..=6 => VOp::Push(tag),
             7 | 8 => VOp::Pop,
             9 | 10 => VOp::Insert(pos(r), tag),
